@@ -141,6 +141,48 @@ func runC16(c *Ctx) {
 		c.Case("fe.setbytes", cl, false, req)
 		c.Check3("fe.setbytes", cl, req, fmt.Sprintf("fe.setbytes.spec p %x", x), impl)
 	}
+	// scalar-field wrapper: decoding must reject exactly the values >= n (in particular n..p-1, which the
+	// coordinate field would accept)
+	for it := 0; it < 240; it++ {
+		var v *big.Int
+		switch it % 6 {
+		case 0:
+			v = new(big.Int).Add(curveN, big.NewInt(int64(it/6)-4))
+		case 1:
+			v = new(big.Int).SetBytes(c.rng.Bytes(32))
+		case 2: // between n and p
+			v = new(big.Int).Add(curveN, new(big.Int).SetBytes(c.rng.Bytes(1+c.rng.Intn(15))))
+		case 3:
+			v = new(big.Int).Add(curveP, big.NewInt(int64(it/6)-4))
+		case 4:
+			v = big.NewInt(int64(it / 6))
+		default:
+			v = new(big.Int).Sub(curveN, new(big.Int).SetBytes(c.rng.Bytes(1+c.rng.Intn(20))))
+		}
+		if v.Sign() < 0 || v.BitLen() > 256 {
+			continue
+		}
+		x := be32(v)
+		impl := try(func() string {
+			e, err := new(sm2.VerifScalarElement).SetBytes(x)
+			if err != nil {
+				return "err"
+			}
+			return fmt.Sprintf("ok %x", e.Bytes())
+		})
+		req := fmt.Sprintf("fe.setbytes n %x", x)
+		cl := "wrapper/scalar-setbytes/"
+		switch {
+		case v.Cmp(curveN) < 0:
+			cl += "canon"
+		case v.Cmp(curveP) < 0:
+			cl += "n<=v<p"
+		default:
+			cl += "v>=p"
+		}
+		c.Case("fe.setbytes", cl, false, req)
+		c.Check3("fe.setbytes", cl, req, fmt.Sprintf("fe.setbytes.spec n %x", x), impl)
+	}
 	for l := 0; l <= 40; l++ {
 		if l == 32 {
 			continue
